@@ -278,12 +278,17 @@ variable [FloatOracle]
 /-! ### a subscribe call starts -/
 
 theorem inv_start (decls : List (List Var)) (s : St) (js : JS) (inv : Inv decls s js) (svc : Nat) (t : Int)
-    (hsc : js.started.contains svc = false) :
+    (hsc : (!js.pend.contains svc && (grantedSid js svc).isNone) = true) :
     contains s.pending svc = false
     ∧ Inv decls { s with pending := set s.pending svc t }
         { js with started := svc :: js.started, pend := svc :: js.pend } := by
-  have hns : svc ∉ js.started := by simpa using hsc
-  have hnp : svc ∉ js.pend := fun h => hns (inv.pendStarted svc h)
+  simp only [Bool.and_eq_true, Bool.not_eq_true', Option.isNone_iff_eq_none] at hsc
+  have hnp : svc ∉ js.pend := by simpa using hsc.1
+  have hng : ∀ p ∈ js.granted, p.1 ≠ svc := by
+    intro p hp e
+    have := find_fst inv.grantedSvcNodup (i := p.1) (s := p.2) hp
+    have hg : grantedSid js svc = some p.2 := by simp [grantedSid, ← e, this]
+    rw [hsc.2] at hg; cases hg
   have hc : contains s.pending svc = false := by
     unfold PyDict.contains; rw [inv.pend svc]; simpa using hnp
   refine ⟨hc, ?_⟩
@@ -303,7 +308,7 @@ theorem inv_start (decls : List (List Var)) (s : St) (js : JS) (inv : Inv decls 
     refine ⟨List.mem_cons_of_mem _ this.1, ?_⟩
     intro h
     rcases List.mem_cons.mp h with e | e
-    · exact hns (e ▸ this.1)
+    · exact hng p hp e
     · exact this.2 e
 
 /-! ### the SUBSCRIBE response arrives -/
